@@ -40,6 +40,15 @@ type keptMsg struct {
 	live  proto.Message
 	clone proto.Message
 	who   string
+	reply bool
+}
+
+// keepReply: the handler also keeps the reply messages it returned (a cached asset, a reused
+// chunk buffer): their memory stays the handler's, larking must not write to it afterwards.
+func (e *echoImpl) keepReply(m proto.Message) {
+	e.mu.Lock()
+	e.kept = append(e.kept, keptMsg{live: m, clone: proto.Clone(m), who: truncS(fmt.Sprint(m), 40), reply: true})
+	e.mu.Unlock()
 }
 
 func (e *echoImpl) keep(m proto.Message) {
@@ -62,6 +71,7 @@ func (e *echoImpl) Unary(c *dyn.Call) (proto.Message, error) {
 		fs := in.Descriptor().Fields()
 		setSBN(out, "", append([]byte(nil), in.Get(fs.ByName("b")).Bytes()...), 0)
 	}
+	e.keepReply(out)
 	sched.Point("handler step", nil)
 	return out, nil
 }
@@ -85,6 +95,7 @@ func (e *echoImpl) Stream(c *dyn.Call) error {
 			fs := in.Descriptor().Fields()
 			setSBN(out, "", append([]byte(nil), in.Get(fs.ByName("b")).Bytes()...), 0)
 		}
+		e.keepReply(out)
 		if err := c.Stream.SendMsg(out); err != nil {
 			return err
 		}
@@ -334,7 +345,9 @@ func c13Scenario(kinds []string, sizes []int) *e3Scenario {
 			}
 		}
 		for _, k := range s.impl.kept {
-			if !proto.Equal(k.live, k.clone) {
+			if !proto.Equal(k.live, k.clone) && k.reply {
+				fails = append(fails, e3Fail{"retained-reply-message-changed", fmt.Sprintf("a reply message the handler returned and kept (%s) changed afterwards:\n was %v\n now %v", k.who, k.clone, k.live)})
+			} else if !proto.Equal(k.live, k.clone) {
 				fails = append(fails, e3Fail{"retained-request-message-changed", fmt.Sprintf("a request message kept by the handler (%s) changed after it was delivered:\n was %v\n now %v", k.who, k.clone, k.live)})
 			}
 		}
@@ -377,7 +390,7 @@ func runC13(c *Ctx) {
 	if c.Thorough() {
 		bound, per = 3, 8*time.Minute
 	}
-	r.Rule(fmt.Sprintf("pairs (thorough: all 45 pairs and two triples) of concurrent requests over kinds {HTTP JSON, HTTP JSON with gzip body, HttpBody unary echo, HttpBody chunked upload, gRPC identity, gRPC gzip bidi, gRPC-web, HTTP JSON stream with gzip body, HTTP JSON stream with two messages in one read} with distinct self-describing payloads on one Mux with a small receive limit; scheduling points: pool Get/Put (plus the environment answer 'pool emptied by GC'), WaitGroup ops, every body Read (24-byte chunks) and response Write, handler steps; every interleaving with at most %d deviations (preemptions + pool-emptied answers), bounds iterated from 0; oracle per schedule: every response and every handler-seen message equals the request's solo run, request messages retained by handlers are unchanged at the end, no panic, no deadlock; plus the free-running -race pass over the same bodies", bound))
+	r.Rule(fmt.Sprintf("pairs (thorough: all 45 pairs and two triples) of concurrent requests over kinds {HTTP JSON, HTTP JSON with gzip body, HttpBody unary echo, HttpBody chunked upload, gRPC identity, gRPC gzip bidi, gRPC-web, HTTP JSON stream with gzip body, HTTP JSON stream with two messages in one read} with distinct self-describing payloads on one Mux with a small receive limit; scheduling points: pool Get/Put (plus the environment answer 'pool emptied by GC'), WaitGroup ops, every body Read (24-byte chunks) and response Write, handler steps; every interleaving with at most %d deviations (preemptions + pool-emptied answers), bounds iterated from 0; oracle per schedule: every response and every handler-seen message equals the request's solo run, request messages and returned reply messages retained by handlers are unchanged at the end, no panic, no deadlock; plus the free-running -race pass over the same bodies", bound))
 	r.Assume("proxied streams are covered by C10's scenarios and its -race pass", "races inside grpc-go / net/http are outside the scheduler")
 	runScenarios(c, c13Scenarios(c.Thorough()), bound, per, 0)
 	if c.Shards == 0 {
